@@ -8,7 +8,9 @@ pub mod c04;
 pub mod c06;
 pub mod c07;
 pub mod c08;
+pub mod c09;
 pub mod c10;
+pub mod c11;
 pub mod c12;
 pub mod c13;
 pub mod c14;
@@ -27,6 +29,8 @@ pub struct Prop {
     pub assumptions: &'static [&'static str],
     /// run under a supervising parent process (abnormal termination is attributed to the journalled case)
     pub isolated: bool,
+    /// small replayable cases drawn from the property's own generators (for the Miri engine)
+    pub corpus: Option<fn(u64, usize) -> Vec<Value>>,
 }
 
 const COMMON_ASSUMPTIONS: &[&str] = &[
@@ -37,23 +41,25 @@ const COMMON_ASSUMPTIONS: &[&str] = &[
 
 pub fn lookup(id: &str) -> Option<Prop> {
     Some(match id {
-        "C01" => Prop { id: "C01", run: c01::run, replay: c01::replay, rule: c01::RULE, assumptions: COMMON_ASSUMPTIONS, isolated: false },
-        "C02" => Prop { id: "C02", run: c02::run, replay: c02::replay, rule: c02::RULE, assumptions: COMMON_ASSUMPTIONS, isolated: false },
-        "C03" => Prop { id: "C03", run: c03::run, replay: c03::replay, rule: c03::RULE, assumptions: COMMON_ASSUMPTIONS, isolated: false },
-        "C04" => Prop { id: "C04", run: c04::run_c04, replay: c04::replay_c04, rule: c04::RULE_C04, assumptions: COMMON_ASSUMPTIONS, isolated: false },
-        "C05" => Prop { id: "C05", run: c04::run_c05, replay: c04::replay_c05, rule: c04::RULE_C05, assumptions: COMMON_ASSUMPTIONS, isolated: false },
-        "C06" => Prop { id: "C06", run: c06::run, replay: c06::replay, rule: c06::RULE, assumptions: COMMON_ASSUMPTIONS, isolated: false },
-        "C07" => Prop { id: "C07", run: c07::run, replay: c07::replay, rule: c07::RULE, assumptions: COMMON_ASSUMPTIONS, isolated: true },
-        "C08" => Prop { id: "C08", run: c08::run, replay: c08::replay, rule: c08::RULE, assumptions: COMMON_ASSUMPTIONS, isolated: false },
-        "C10" => Prop { id: "C10", run: c10::run, replay: c10::replay, rule: c10::RULE, assumptions: COMMON_ASSUMPTIONS, isolated: false },
-        "C12" => Prop { id: "C12", run: c12::run, replay: c12::replay, rule: c12::RULE, assumptions: COMMON_ASSUMPTIONS, isolated: false },
-        "C13" => Prop { id: "C13", run: c13::run, replay: c13::replay, rule: c13::RULE, assumptions: COMMON_ASSUMPTIONS, isolated: true },
-        "C14" => Prop { id: "C14", run: c14::run, replay: c14::replay, rule: c14::RULE, assumptions: COMMON_ASSUMPTIONS, isolated: false },
-        "C15" => Prop { id: "C15", run: c15::run, replay: c15::replay, rule: c15::RULE, assumptions: COMMON_ASSUMPTIONS, isolated: false },
-        "C16" => Prop { id: "C16", run: c16::run, replay: c16::replay, rule: c16::RULE, assumptions: COMMON_ASSUMPTIONS, isolated: false },
-        "C17" => Prop { id: "C17", run: c17::run, replay: c17::replay, rule: c17::RULE, assumptions: COMMON_ASSUMPTIONS, isolated: false },
-        "C18" => Prop { id: "C18", run: c18::run, replay: c18::replay, rule: c18::RULE, assumptions: COMMON_ASSUMPTIONS, isolated: false },
-        "C19" => Prop { id: "C19", run: c19::run, replay: c19::replay, rule: c19::RULE, assumptions: COMMON_ASSUMPTIONS, isolated: false },
+        "C01" => Prop { id: "C01", run: c01::run, replay: c01::replay, rule: c01::RULE, assumptions: COMMON_ASSUMPTIONS, isolated: false, corpus: None },
+        "C02" => Prop { id: "C02", run: c02::run, replay: c02::replay, rule: c02::RULE, assumptions: COMMON_ASSUMPTIONS, isolated: false, corpus: None },
+        "C03" => Prop { id: "C03", run: c03::run, replay: c03::replay, rule: c03::RULE, assumptions: COMMON_ASSUMPTIONS, isolated: false, corpus: None },
+        "C04" => Prop { id: "C04", run: c04::run_c04, replay: c04::replay_c04, rule: c04::RULE_C04, assumptions: COMMON_ASSUMPTIONS, isolated: false, corpus: None },
+        "C05" => Prop { id: "C05", run: c04::run_c05, replay: c04::replay_c05, rule: c04::RULE_C05, assumptions: COMMON_ASSUMPTIONS, isolated: false, corpus: None },
+        "C06" => Prop { id: "C06", run: c06::run, replay: c06::replay, rule: c06::RULE, assumptions: COMMON_ASSUMPTIONS, isolated: false, corpus: None },
+        "C07" => Prop { id: "C07", run: c07::run, replay: c07::replay, rule: c07::RULE, assumptions: COMMON_ASSUMPTIONS, isolated: true, corpus: Some(c07::corpus) },
+        "C08" => Prop { id: "C08", run: c08::run, replay: c08::replay, rule: c08::RULE, assumptions: COMMON_ASSUMPTIONS, isolated: false, corpus: None },
+        "C09" => Prop { id: "C09", run: c09::run, replay: c09::replay, rule: c09::RULE, assumptions: COMMON_ASSUMPTIONS, isolated: false, corpus: None },
+        "C10" => Prop { id: "C10", run: c10::run, replay: c10::replay, rule: c10::RULE, assumptions: COMMON_ASSUMPTIONS, isolated: false, corpus: None },
+        "C11" => Prop { id: "C11", run: c11::run, replay: c11::replay, rule: c11::RULE, assumptions: COMMON_ASSUMPTIONS, isolated: false, corpus: None },
+        "C12" => Prop { id: "C12", run: c12::run, replay: c12::replay, rule: c12::RULE, assumptions: COMMON_ASSUMPTIONS, isolated: false, corpus: None },
+        "C13" => Prop { id: "C13", run: c13::run, replay: c13::replay, rule: c13::RULE, assumptions: COMMON_ASSUMPTIONS, isolated: true, corpus: Some(c13::corpus) },
+        "C14" => Prop { id: "C14", run: c14::run, replay: c14::replay, rule: c14::RULE, assumptions: COMMON_ASSUMPTIONS, isolated: false, corpus: None },
+        "C15" => Prop { id: "C15", run: c15::run, replay: c15::replay, rule: c15::RULE, assumptions: COMMON_ASSUMPTIONS, isolated: false, corpus: None },
+        "C16" => Prop { id: "C16", run: c16::run, replay: c16::replay, rule: c16::RULE, assumptions: COMMON_ASSUMPTIONS, isolated: false, corpus: None },
+        "C17" => Prop { id: "C17", run: c17::run, replay: c17::replay, rule: c17::RULE, assumptions: COMMON_ASSUMPTIONS, isolated: false, corpus: None },
+        "C18" => Prop { id: "C18", run: c18::run, replay: c18::replay, rule: c18::RULE, assumptions: COMMON_ASSUMPTIONS, isolated: false, corpus: Some(c18::corpus) },
+        "C19" => Prop { id: "C19", run: c19::run, replay: c19::replay, rule: c19::RULE, assumptions: COMMON_ASSUMPTIONS, isolated: false, corpus: None },
         _ => return None,
     })
 }
